@@ -338,6 +338,7 @@ func runC12(c *Ctx) {
 	checkLeaseLayout(c)
 	checkStoredExpiryIsTheGivenInstant(c, "C12-R5")
 	checkLeaseNotMirroredIntoTimelessLockSet(c, "C12-R2")
+	checkLeaseRequestsReachTheStore(c, "C12-R3")
 }
 
 // checkLeaseRelease: every success path of insertMinedTx passes a per-input unconditional unlockOutput.
@@ -594,4 +595,44 @@ func checkLeaseNotMirroredIntoTimelessLockSet(c *Ctx, rule string) {
 			fnName(fn)+" takes a lease in the store and also adds the output to the wallet's in-memory lock set (through "+bad+"): that set never expires, so after the lease ran out the output is still skipped by coin selection and ListUnspent until a restart or an explicit unlock")
 	}
 	c.Floor(rule, "wallet functions taking a lease", n, 1)
+}
+
+// checkLeaseRequestsReachTheStore: "can be extended by the same identifier": whether a lease request changes anything is
+// the store's decision (it compares owner and expiry and rewrites the row). The wallet-level entry points hand every
+// request to it: the database transaction of Wallet.LeaseOutput succeeds only through Store.LockOutput (and that of
+// Wallet.ReleaseOutput only through Store.UnlockOutput), and the expiry reported to the caller is the one the store
+// returned. A shortcut that answers "already leased" from a listing reports success for an extension that was never
+// written.
+func checkLeaseRequestsReachTheStore(c *Ctx, rule string) {
+	p := c.P
+	n := 0
+	for _, pair := range [][2]string{{"LeaseOutput", "LockOutput"}, {"ReleaseOutput", "UnlockOutput"}} {
+		entry := p.Func("wallet", "Wallet", pair[0])
+		store := p.Func("wtxmgr", "Store", pair[1])
+		if entry == nil || store == nil {
+			c.Unresolved(rule, "wallet.Wallet."+pair[0]+" / wtxmgr.Store."+pair[1])
+			continue
+		}
+		isStore := func(ins ssa.Instruction) bool { return p.isCallTo(ins, store) }
+		for _, f := range p.regionOf(entry) {
+			has := false
+			for _, ci := range callsOf(f) {
+				if isStore(ci) {
+					has = true
+				}
+			}
+			if !has {
+				continue
+			}
+			n++
+			bad := p.mustPassToSuccess(f, nil, isStore, nil)
+			pos := f.Pos()
+			if bad != nil {
+				pos = bad.Pos()
+			}
+			c.Check(rule, "lease-request-reaches-store:"+pair[0], pos, bad == nil,
+				"Wallet."+pair[0]+" can report success without having handed the request to Store."+pair[1]+": an extension by the lease's owner is acknowledged with the old expiry and never written — the output becomes available at the original expiry")
+		}
+	}
+	c.Floor(rule, "wallet-level lease entry points that call the store", n, 2)
 }
